@@ -2,6 +2,7 @@
 #![allow(clippy::too_many_lines, clippy::type_complexity)]
 
 mod ast;
+mod cli;
 mod drive;
 mod engine;
 mod findings;
